@@ -68,7 +68,7 @@ def descOf (status : Nat) : Msg → Option String
   | .chanAt _ v => some s!"DirectSMF(${hex2 status},${hex2 v})"
   | .metaM 0x2F _ => some "/* __END_OF_TRACK__ */"
   | .metaM 0x51 [a, b, c] => if a * 65536 + b * 256 + c = 0 then none else some s!"Tempo={60000000 / (a * 65536 + b * 256 + c)}"
-  | .metaM 0x58 (nn :: dd :: _) => some s!"TimeSig={nn}/{2 ^ dd}"
+  | .metaM 0x58 (nn :: dd :: _) => if dd < 31 then some s!"TimeSig={nn}/{2 ^ dd}" else none
   | .metaM ty d =>
       if ty = 0x51 ∨ ty = 0x58 ∨ ty = 0x2F ∨ d.length ≥ 128 ∨ d.any (fun b => b = 10 ∨ b = 13) then none
       else match metaName ty with
